@@ -201,6 +201,30 @@ class Interp:
                 "or_": PyFunc(lambda a, b: self.binop(ast.BitOr(), a, b), "operator.or_", True),
                 "and_": PyFunc(lambda a, b: self.binop(ast.BitAnd(), a, b), "operator.and_", True),
                 "neg": PyFunc(lambda a: self.unop(ast.USub(), a), "operator.neg", True),
+                "pos": PyFunc(lambda a: self.unop(ast.UAdd(), a), "operator.pos", True),
+                "invert": PyFunc(lambda a: self.unop(ast.Invert(), a), "operator.invert", True),
+                "inv": PyFunc(lambda a: self.unop(ast.Invert(), a), "operator.inv", True),
+                "not_": PyFunc(lambda a: not self.truth(a), "operator.not_", True),
+                "truth": PyFunc(lambda a: self.truth(a), "operator.truth", True),
+                "truediv": PyFunc(lambda a, b: self.binop(ast.Div(), a, b), "operator.truediv", True),
+                "matmul": PyFunc(lambda a, b: self.binop(ast.MatMult(), a, b), "operator.matmul", True),
+                "rshift": PyFunc(lambda a, b: self.binop(ast.RShift(), a, b), "operator.rshift", True),
+                "pow": PyFunc(lambda a, b: self.binop(ast.Pow(), a, b), "operator.pow", True),
+                "mod": PyFunc(lambda a, b: self.binop(ast.Mod(), a, b), "operator.mod", True),
+                "floordiv": PyFunc(lambda a, b: self.binop(ast.FloorDiv(), a, b), "operator.floordiv", True),
+                "eq": PyFunc(lambda a, b: self.compare(ast.Eq(), a, b, None), "operator.eq", True),
+                "ne": PyFunc(lambda a, b: self.compare(ast.NotEq(), a, b, None), "operator.ne", True),
+                "lt": PyFunc(lambda a, b: self.compare(ast.Lt(), a, b, None), "operator.lt", True),
+                "le": PyFunc(lambda a, b: self.compare(ast.LtE(), a, b, None), "operator.le", True),
+                "gt": PyFunc(lambda a, b: self.compare(ast.Gt(), a, b, None), "operator.gt", True),
+                "ge": PyFunc(lambda a, b: self.compare(ast.GtE(), a, b, None), "operator.ge", True),
+                "contains": PyFunc(lambda a, b: self.compare(ast.In(), b, a, None), "operator.contains", True),
+                "getitem": PyFunc(lambda a, b: self.subscript(a, b, None), "operator.getitem", True),
+                "itemgetter": PyFunc(lambda *idx: PyFunc((lambda o: self.subscript(o, idx[0], None)) if len(idx) == 1 else
+                                                         (lambda o: tuple(self.subscript(o, i, None) for i in idx)), "itemgetter", True), "operator.itemgetter", True),
+                "attrgetter": PyFunc(lambda *names: PyFunc((lambda o: self.getattr_value(o, names[0])) if len(names) == 1 else
+                                                           (lambda o: tuple(self.getattr_value(o, n) for n in names)), "attrgetter", True), "operator.attrgetter", True),
+                "methodcaller": PyFunc(lambda name, *a, **k: PyFunc(lambda o: self.call(self.getattr_value(o, name), list(a), k), "methodcaller", True), "operator.methodcaller", True),
             }),
             "warnings": Obj("module:warnings", {"warn": PyFunc(lambda *a, **k: None, "warn", True)}),
             "re": Obj("module:re", {"match": PyFunc(lambda p, s, *a: re.match(p, s), "re.match"),
